@@ -848,7 +848,8 @@ def OP_DEF(tape: Tape, stack: Stack, cache: dict) -> None:
         def_data,
         callstack_limit=tape.callstack_limit,
         contracts=tape.contracts,
-        flags=tape.flags
+        flags=tape.flags,
+        plugins=tape.plugins
     )
     tape.definitions[def_handle] = subtape
     subtape.definitions = tape.definitions
@@ -888,7 +889,8 @@ def OP_IF(tape: Tape, stack: Stack, cache: dict) -> None:
             callstack_limit=tape.callstack_limit,
             callstack_count=tape.callstack_count,
             definitions={**tape.definitions},
-            contracts=tape.contracts
+            contracts=tape.contracts,
+            plugins=tape.plugins
         )
         run_tape(subtape, stack, cache, additional_flags=tape.flags)
         if 'returned' in cache:
@@ -915,6 +917,7 @@ def OP_IF_ELSE(tape: Tape, stack: Stack, cache: dict) -> None:
         callstack_count=tape.callstack_count,
         definitions={**tape.definitions},
         contracts=tape.contracts,
+        plugins=tape.plugins,
     )
     run_tape(subtape, stack, cache, additional_flags=tape.flags)
     if 'returned' in cache:
@@ -1175,6 +1178,7 @@ def OP_TRY_EXCEPT(tape: Tape, stack: Stack, cache: dict) -> None:
         callstack_count=tape.callstack_count,
         definitions={**tape.definitions},
         contracts=tape.contracts,
+        plugins=tape.plugins,
     )
 
     try:
@@ -1188,6 +1192,7 @@ def OP_TRY_EXCEPT(tape: Tape, stack: Stack, cache: dict) -> None:
             callstack_count=tape.callstack_count,
             definitions={**tape.definitions},
             contracts=tape.contracts,
+            plugins=tape.plugins,
         )
         run_tape(subtape, stack, cache, additional_flags=tape.flags)
 
@@ -1266,7 +1271,7 @@ def OP_LOOP(tape: Tape, stack: Stack, cache: dict) -> None:
         loop_def, callstack_limit=tape.callstack_limit,
         callstack_count=tape.callstack_count,
         definitions=tape.definitions, flags=tape.flags,
-        contracts=tape.contracts
+        contracts=tape.contracts, plugins=tape.plugins
     )
 
     while bytes_to_bool(condition):
